@@ -161,7 +161,7 @@ func buildC03Case(fn *irFunc) *c02Case {
 }
 
 func c03CompilerGoals(ck *Checker, rep *Report, opts *Options) []*Goal {
-	if opts.OnlyFn != "" && !strings.Contains("ssa.Builder.IndexAddr Index Slice", opts.OnlyFn) {
+	if opts.OnlyFn != "" && !strings.Contains("ssa.Builder.IndexAddr Index Slice ssa.Builder.TypeAssert", opts.OnlyFn) {
 		return nil
 	}
 	text, err := RunC02Harness(opts, "c03_emit_test.go", "c03")
@@ -195,6 +195,7 @@ func c03CompilerGoals(ck *Checker, rep *Report, opts *Options) []*Goal {
 		}
 	}
 	rep.Extra["compiler_side_cases"] = n
+	goals = append(goals, c03TypeAssertGoals(text, rep)...)
 	if n < 150 {
 		rep.Broken = append(rep.Broken, fmt.Sprintf("C03 emission harness produced only %d cases", n))
 	}
